@@ -66,7 +66,11 @@ OVERRIDES = [None, 0, 1, 4, 6, 13]
 WIDTHS = [0, 1, 2, 9, 10, 11, 14]
 
 
-NONSTR_NAMES = [["lit", "5"], ["lit", "1.5"], ["lit", "(1, 2)"], ["lit", "True"], ["lit", "0"]]
+NONSTR_NAMES = [["lit", "5"], ["lit", "1.5"], ["lit", "(1, 2)"], ["lit", "True"], ["lit", "0"], ["lit", "1"], ["lit", "1.0"],
+                ["lit", "['k']"], ["lit", "{'k': 1}"], ["lit", "(1.0, 2.0)"], ["lit", "7.0"], ["lit", "7"]]
+# hash-equal names of different types side by side (a cache keyed by the name must not confuse them)
+NONSTR_TABLES = [[["lit", "2"], ["lit", "2.0"], "b"], [["lit", "True"], ["lit", "1"], ["lit", "1.0"]], [["lit", "(1, 2)"], ["lit", "(1.0, 2.0)"]],
+                 [["lit", "0"], ["lit", "0.0"], ["lit", "False"]]]
 
 
 def decode_name(nm):
@@ -183,6 +187,9 @@ def generate(rng, tier):
     for nm in NONSTR_NAMES:
         yield {"fam": "vector", "rows": None, "cols": [{"name": nm, "vals": ["i=0", "i=1"]}]}
         yield {"fam": "table", "rows": None, "override": None, "cols": [{"name": nm, "vals": ["i=0", "i=1"]}, {"name": "b", "vals": ["i=2", "i=3"]}]}
+    for nms in NONSTR_TABLES:
+        yield {"fam": "table", "rows": None, "override": None,
+               "cols": [{"name": nm, "vals": [f"i={k}", f"i={k + 1}"]} for k, nm in enumerate(nms)]}
     # 6. random vectors and tables
     for _ in range(6000 if not thorough else 150000):
         rows = rng.choice(ROWS + [5, 6, 7, 20, 100])
@@ -342,9 +349,25 @@ def execute(spec):
                 impl = {"err": "other:not-a-str"}
             else:
                 impl = {"lines": s.split("\n"), "before": before, "after": after}
+                if unpinned:
+                    # headers show the stored names: a non-string name is shown by its repr
+                    # (a falsy name such as 0 or False is treated as "unnamed" throughout display.py: not judged)
+                    want = [repr(decode_name(cs["name"])) if isinstance(cs["name"], list) and decode_name(cs["name"]) else None
+                            for cs in spec["cols"]]
+                    if not is_table and (want[0] is None or len(obj) == 0):
+                        want = []
+                    head = s.split("\n")[0]
+                    got = [head.strip()] if not is_table else [t for t in head.split("  ") if t.strip()]
+                    got = [t.strip() for t in got]
+                    if len(got) == len(want) and any(w is not None and g != w for g, w in zip(got, want)):
+                        py_header_fail = f"header row shows {got} but the stored names are {[decode_name(cs['name']) for cs in spec['cols']]!r}"
+                        impl["header_fail"] = py_header_fail
     finally:
         set_repr_rows(None)
-    return {"fam": spec["fam"], "case": case, "impl": impl}
+    out = {"fam": spec["fam"], "case": case, "impl": impl}
+    if isinstance(impl, dict) and impl.get("header_fail"):
+        out["py_fail"] = impl.pop("header_fail")
+    return out
 
 
 def _features(spec, wire):
